@@ -14,7 +14,7 @@ RULE = ("C01/C06-style programs rendered with a numeric stress renderer: relativ
         "Distinct by SHA-1 of the concrete case.")
 ASSUMPTIONS = [
     "values that overflow to infinity (>= 309 digits) are not generated: the statement says finite numbers",
-    "'intended values' of F words: the feed of a synthesised G0/G1, as the printer reads it in its current units, is one of the feeds (mm/min) the program has commanded up to and including the current command (or 0 before the first F word)",
+    "'intended values' of F words: the feed of a synthesised G0/G1, as the printer reads it in its current units, is the feed (mm/min) in force after the current program command for a re-positioning move, and that or the feed in force at one of the program's own E-only commands so far for a retraction / recovery (0 before the first F word)",
     "'intended values': the synthesised stream is executed on the reference printer with the firmware-style reader (a number ends at 'e'/'E'), and the C03/C04 relations (position, E coordinate) must hold with 1e-6 mm + 1e-9 relative tolerance; merged commands are compared with the C06 model value by value",
 ]
 
@@ -32,11 +32,15 @@ def run_case(case, strict=False):  # pylint: disable=unused-argument,too-many-br
     nontrivial = False
     cl = set()
     nsynth = 0
-    feeds = set([0.0])      # every feed rate (mm/min) the program has commanded so far
+    modal = 0.0             # the feed rate (mm/min) in force after the current program item
+    efeeds = set()          # ... and the one in force at each E-only command (retraction / recovery) of the program so far
     for it in tr.items:
-        for sn in (it.u_before, it.u_after):
-            if sn is not None:
-                feeds.add(sn[10])
+        if it.u_after is not None:
+            modal = it.u_after[10]
+        elif it.u_before is not None:
+            modal = it.u_before[10]
+        if it.kind == "g" and it.u_step is not None and it.u_step.read is not None and it.u_step.read.code in ("G0", "G1") and not it.is_move:
+            efeeds.add(modal)
         for cmd in it.out:
             if cmd == it.cmd or cmd in scripts:
                 continue
@@ -69,9 +73,11 @@ def run_case(case, strict=False):  # pylint: disable=unused-argument,too-many-br
             if fw.code in ("G0", "G1") and fw.get("F") is not None and it.f_before is not None:
                 # the speed of a synthesised move is one the program has asked for (in the units the printer is in)
                 got = fw.get("F") * it.f_before[9]
-                if not any(abs(got - f) <= 1e-9 * abs(f) + 1e-12 for f in feeds):
-                    out.append(asserts.F("c07_feed", it, "synthesised %r: the printer (units x%r) moves at %r mm/min, the program has only ever commanded %r" % (
-                        cmd, it.f_before[9], got, sorted(feeds)[:6])))
+                # a re-positioning move travels at the feed in force now; a retraction / recovery at the feed of the program's own
+                want = set([modal]) if fw.get("E") is None else (efeeds | set([modal]))
+                if not any(abs(got - f) <= 1e-9 * abs(f) + 1e-12 for f in want):
+                    out.append(asserts.F("c07_feed", it, "synthesised %r: the printer (units x%r) moves at %r mm/min, intended %r" % (
+                        cmd, it.f_before[9], got, sorted(want)[:6])))
                 if it.f_before[9] != 1.0:
                     cl.add("synth_feed_in_inch_mode")
     if tr.pf.exp_reads:
